@@ -546,7 +546,17 @@ where
                     return Ok(());
                 }
             }
-            Err(StoreError::NotFound) => {}
+            Err(StoreError::NotFound) => {
+                // The header above the batch is synced but not stored anymore, which
+                // means that `Pruner` removed it. Edges of the synced ranges are pruned
+                // only when they are after the sampling window, so the batch below it is
+                // after the sampling window too. On top of that `Store` can not insert
+                // headers that have no stored neighbour, so requesting this batch would
+                // only fail and be repeated forever.
+                if synced_ranges.contains(next_batch.end() + 1) {
+                    return Ok(());
+                }
+            }
             Err(e) => return Err(e.into()),
         }
 
